@@ -111,6 +111,7 @@ class OutboxRelay(Entity):
         self._entries: list[OutboxEntry] = []
         self._next_entry_id = 0
         self._poll_scheduled = False
+        self._poll_in_progress = False
 
         self._entries_written = 0
         self._entries_relayed = 0
@@ -202,7 +203,13 @@ class OutboxRelay(Entity):
 
     def _handle_poll(self, event: Event) -> Generator[float, None, list[Event]]:
         """Process a batch of pending outbox entries."""
-        self._poll_scheduled = False
+        if self._poll_in_progress:
+            # The previous cycle is still relaying its batch (it is suspended
+            # in a relay-latency yield) and its remaining entries are not
+            # marked yet: a second cycle running now would relay them again.
+            # Skip this poll; the running cycle reschedules the loop when done.
+            return []
+        self._poll_in_progress = True
         self._poll_cycles += 1
 
         # Collect pending entries up to batch_size
@@ -247,6 +254,12 @@ class OutboxRelay(Entity):
             len(pending),
             self.pending_count,
         )
+
+        # The cycle is over. _poll_scheduled stays set from the creation of a
+        # poll event until here, so a non-poll event arriving while the batch
+        # is being relayed does not start a second, concurrent poll loop.
+        self._poll_in_progress = False
+        self._poll_scheduled = False
 
         # Reschedule if there are more pending entries or keep polling
         result = relay_events
